@@ -739,12 +739,12 @@ def t_uf(name, idx, args, widths, w):
 UF_FOLD = {}
 
 
-def substitute(roots, mapping):
-    """Rebuild the DAG below `roots` with every term whose id is a key of
-    `mapping` replaced by mapping[id] (an int or Term of the same width).
-    The replacement is not descended into.  Nodes are rebuilt with the raw
-    constructor (no re-simplification) unless unchanged.  Returns the list of
-    new roots."""
+def substitute_raw(roots, mapping):
+    """(C17) Like `substitute` below, but nodes are rebuilt with the raw
+    constructor (`_rebuild`: no re-simplification, only canonical operand
+    order), so the shape of the DAG is preserved exactly.  `mapping`: term id
+    -> replacement (int or Term of the same width), not descended into.
+    Returns the list of new roots."""
     memo = {}
 
     def get(x):
@@ -771,16 +771,19 @@ def _rebuild(t, na):
     argument became constant (by concrete evaluation of the one node)"""
     if all(_c(a) for a in na) and t.op != "uf":
         return _apply(t, list(na), {})
-    if t.op in ("add", "mul", "and", "or", "xor") and any(_c(a) for a in na[:-1]):
-        # keep the invariant "constants last" used by the simplifier
+    if t.op in ("add", "mul", "and", "or", "xor"):
+        # canonical operand order (terms by id, one merged constant last) so that
+        # nodes that became equal after the substitution are shared again
         cs = [a for a in na if _c(a)]
-        ts = [a for a in na if not _c(a)]
-        f = {"add": lambda x, y: (x + y), "mul": lambda x, y: x * y, "and": lambda x, y: x & y,
-             "or": lambda x, y: x | y, "xor": lambda x, y: x ^ y}[t.op]
-        c = cs[0]
-        for x in cs[1:]:
-            c = f(c, x)
-        na = tuple(ts) + (c & mask(t.w),)
+        ts = sorted((a for a in na if not _c(a)), key=lambda x: x.id)
+        if len(cs) > 1 or (cs and _c(na[0])):
+            f = {"add": lambda x, y: (x + y), "mul": lambda x, y: x * y, "and": lambda x, y: x & y,
+                 "or": lambda x, y: x | y, "xor": lambda x, y: x ^ y}[t.op]
+            c = cs[0]
+            for x in cs[1:]:
+                c = f(c, x)
+            cs = [c & mask(t.w)]
+        na = tuple(ts) + tuple(cs)
     return _mk(t.op, na, t.w, t.aux)
 
 
